@@ -6,6 +6,7 @@ package main
 import (
 	"fmt"
 	"go/ast"
+	"go/constant"
 	"go/token"
 	"go/types"
 	"strings"
@@ -342,7 +343,7 @@ func (ex *Exec) modelled(st *State, ref string, fn *types.Func, recv *Val, args 
 				ex.assignBack(st, arg, ex.retype(r, ex.typeOf(arg)))
 			}
 			lessOrder(r)
-			ex.assumption("sort: the result is a permutation of the input (same members, same length)" )
+			ex.assumption("sort: the result is a permutation of the input (same members, same length)")
 			return none()
 		}
 	case "time.Duration.Milliseconds":
@@ -398,7 +399,49 @@ func (ex *Exec) modelled(st *State, ref string, fn *types.Func, recv *Val, args 
 			ex.modelUsed[ref]++
 			return rs, true
 		}
-	case "fmt.Sprintf", "fmt.Sprint", "fmt.Sprintln", "strconv.Itoa", "strconv.FormatInt", "strconv.FormatUint", "strconv.FormatFloat", "strconv.FormatBool", "strconv.Quote":
+	case "fmt.Sprintf":
+		// a constant format made of literal text and %s verbs applied to strings: plain concatenation
+		if len(args) >= 1 && args[0].C != nil && args[0].C.Kind() == constant.String {
+			f := constant.StringVal(args[0].C)
+			var parts []string
+			ai, ok, lit := 1, true, ""
+			for i := 0; i < len(f) && ok; i++ {
+				if f[i] != '%' {
+					lit += string(f[i])
+					continue
+				}
+				if i+1 < len(f) && f[i+1] == '%' {
+					lit += "%"
+					i++
+					continue
+				}
+				if i+1 < len(f) && f[i+1] == 's' && ai < len(args) && args[ai].Sh != nil && args[ai].Sh.IsLeaf() && args[ai].Sh.Leaf == "String" {
+					if lit != "" {
+						parts = append(parts, smtString(lit))
+						lit = ""
+					}
+					parts = append(parts, args[ai].S)
+					ai++
+					i++
+					continue
+				}
+				ok = false
+			}
+			if ok && ai == len(args) {
+				if lit != "" {
+					parts = append(parts, smtString(lit))
+				}
+				switch len(parts) {
+				case 0:
+					return one(&Val{Sh: ex.eng.sh.shapeOf(r0()), T: r0(), S: smtString("")})
+				case 1:
+					return one(&Val{Sh: ex.eng.sh.shapeOf(r0()), T: r0(), S: parts[0]})
+				}
+				return one(&Val{Sh: ex.eng.sh.shapeOf(r0()), T: r0(), S: "(str.++ " + strings.Join(parts, " ") + ")"})
+			}
+		}
+		return one(ex.freshVal(r0(), "fmt"))
+	case "fmt.Sprint", "fmt.Sprintln", "strconv.Itoa", "strconv.FormatInt", "strconv.FormatUint", "strconv.FormatFloat", "strconv.FormatBool", "strconv.Quote":
 		return one(ex.freshVal(r0(), "fmt"))
 	case "errors.Is":
 		// deterministic in (err, target); true when they are the same value, false for a nil error
@@ -538,7 +581,9 @@ func (ex *Exec) modelled(st *State, ref string, fn *types.Func, recv *Val, args 
 		b := args[0]
 		if b.Sh != nil && b.Sh.Kind == "slice" {
 			ex.safety(st, "index", pos, "(<= 4 "+b.kid("len").S+")")
-			e := func(i int) string { return ex.loaded(&Val{Sh: leafShape(types.Typ[types.Uint8], "Int"), T: types.Typ[types.Uint8], S: fmt.Sprintf("(select %s %d)", b.kid("elems").S, i)}).S }
+			e := func(i int) string {
+				return ex.loaded(&Val{Sh: leafShape(types.Typ[types.Uint8], "Int"), T: types.Typ[types.Uint8], S: fmt.Sprintf("(select %s %d)", b.kid("elems").S, i)}).S
+			}
 			return one(ex.intVal(ex.def("be32", "Int", "(+ (* "+e(0)+" 16777216) (* "+e(1)+" 65536) (* "+e(2)+" 256) "+e(3)+")"), r0()))
 		}
 	case "github.com/dgryski/go-wyhash.Hash":
@@ -620,6 +665,10 @@ func (ex *Exec) lockOp(st *State, recv *Val, op string, pos token.Pos) {
 	set := func(s string) { ex.writeLoc(st, l, &Val{Sh: l.Sh, T: l.T, S: s}) }
 	name := strings.Join(l.Path, ".")
 	mkey := l.TKey + "#" + l.Ref + "#" + name
+	if ex.eng.mutexKeys == nil {
+		ex.eng.mutexKeys = map[string]bool{}
+	}
+	ex.eng.mutexKeys[heapKey(l.TKey, name)] = true
 	switch op {
 	case "unlock", "runlock":
 		if st.released == nil {
@@ -696,10 +745,14 @@ func (ex *Exec) guardCheck(st *State, loc *Loc, at interface{ Pos() token.Pos },
 	cur := ex.readLoc(st, ml)
 	what := "read"
 	goal := not(eq(cur.S, "0"))
+	// an object this function allocated itself is not shared yet
+	fresh := "(> " + loc.Ref + " " + ex.eng.alloc0() + ")"
+	defer func() { _ = fresh }()
 	if write {
 		what = "write"
 		goal = eq(cur.S, "2")
 	}
+	goal = or(goal, fresh)
 	ex.guardN[loc.Path[0]+what]++
 	ex.obligNamed(st, "held", fmt.Sprintf("held(%s):%s:%s#%d", mu, what, loc.Path[0], ex.guardN[loc.Path[0]+what]), at.Pos(), goal, fmt.Sprintf("%s of %s.%s requires %s held", what, loc.TKey, loc.Path[0], mu))
 }
